@@ -28,7 +28,8 @@ def run(cx):
     cx.rule("C09.R4", "panic census of the generator: every may-panic construct reachable from the front-ends is a reviewed table entry (the identifier sinks are R1's)")
     cx.rule("C09.R5", "every type the output names is emitted: composite type arms recurse into their element type through to_rust_string (which emits inline structs/enums) and inline struct/enum arms call to_tokenstream for the name they return; no wildcard arm hides a constructor")
     cx.rule("C09.R6", "template well-formedness for every list length: no separated repetition #(..)SEP* is followed by the same separator (an empty list would leave a lone separator), and the argument list of every emitted call/constructor is taken from the same IDL member list as the declaration it must match (method parameters and <M>_Args fields from t.input, reply() parameters and <M>_Reply fields from t.output)")
-    r1(cx); r2(cx); r3(cx); r4(cx); r6(cx)
+    cx.rule("C09.R7", "file-level attributes come first: where the module text is put together, the `#![..]` inner attributes are emitted before the imports and before the user supplied preamble (rustc rejects an inner attribute that follows an item, so a preamble containing items would make every generated file fail to compile)")
+    r1(cx); r2(cx); r3(cx); r4(cx); r6(cx); r7(cx)
     from .C08 import r5 as type_table
     type_table(cx, cx.ast, rule="C09.R5")
 
@@ -361,3 +362,51 @@ def r6(cx):
     cx.check(True, "C09.R6", "gen:repetition-then-separator", GEN, "", note_ok="%d repetitions examined" % nrep)
     cx.floor("C09.R6", "repetitions in the generator's templates", nrep, 12)
     cx.floor("C09.R6", "emitted argument lists with a declared source", nctx, 7)
+
+
+def r7(cx):
+    import os
+    ast = cx.ast
+    src = open(os.path.join(cx.repo, GEN), encoding="utf-8", errors="replace").read().split("\n")
+    fns = sorted(ast.file(GEN)["_fns"], key=lambda f: f.line)
+    n = 0
+    for fi, f in enumerate(fns):
+        attr = [e for e in f.events if e["k"] == "macro" and e.get("name") == "quote" and re.sub(r"\s+", "", e["text"]).startswith("#![")]
+        if not attr: continue
+        n += 1
+        end = (fns[fi + 1].line - 1) if fi + 1 < len(fns) else len(src)
+        text = "\n".join(src[f.line - 1:end])
+        def first_emission(needle_re, bound_re):
+            """offset where a piece of output is first put into the stream: the quote itself when it is an argument, else the first use of
+            the name it is bound to (after the binding)"""
+            m = re.search(needle_re, text)
+            if not m: return None
+            # is the quote the initialiser of a `let NAME = ...;`? then its emission is the first later use of NAME
+            head = text[:m.start()]
+            lm = list(re.finditer(r"\blet\s+(?:mut\s+)?(\w+)\s*(?::[^=;]+)?=\s*(?![=])", head))
+            if lm and ";" not in head[lm[-1].end():]:
+                name = lm[-1].group(1)
+                stmt_end = text.find(";", m.end())
+                # the statement may contain nested `;` inside the quote: take the `;` that closes the let at bracket depth 0
+                depth = 0; i = lm[-1].end()
+                while i < len(text):
+                    ch = text[i]
+                    if ch in "([{": depth += 1
+                    elif ch in ")]}": depth -= 1
+                    elif ch == ";" and depth == 0: stmt_end = i; break
+                    i += 1
+                u = re.search(r"\b%s\b" % re.escape(name), text[stmt_end:])
+                return (stmt_end + u.start()) if u else None
+            return m.start()
+        a = first_emission(r"#!\s*\[", None)
+        imp = first_emission(r"quote!\s*\(\s*use\s", None)
+        # the preamble: first mention inside this function (or, when a helper builds the header, inside it)
+        pm = re.search(r"\.\s*preamble\b", text)
+        pre = pm.start() if pm else None
+        why = []
+        if a is None: why.append("cannot locate where the inner attributes are emitted")
+        else:
+            if imp is not None and imp < a: why.append("the imports are emitted before the `#![..]` attributes")
+            if pre is not None and pre < a: why.append("the user preamble is emitted before the `#![..]` attributes: with --tosource and a preamble that contains an item the generated file does not compile")
+        cx.check(not why, "C09.R7", "gen:%s:inner-attributes-first" % f.qual, "%s:%d" % (GEN, f.line), "; ".join(why), note_ok="#![..] first, then imports, then preamble")
+    cx.floor("C09.R7", "functions emitting inner attributes", n, 1)
